@@ -142,12 +142,17 @@ fn scen(_spec: RunSpec) -> ScenFut {
                     let shard = format!("shard-{s}");
                     let r2 = router.clone();
                     let sh = shard.clone();
-                    let out = sim::poll_budget(async move { r2.route_write(&sh).await }, 1000).await;
+                    // bounded time: nothing in routing sleeps, so 60 virtual seconds is far beyond any legitimate
+                    // duration; a call parked for ever (e.g. on a lock it holds itself) counts like one that spins
+                    let out = match tokio::time::timeout(Duration::from_secs(60), sim::poll_budget(async move { r2.route_write(&sh).await }, 1000)).await {
+                        Ok(o) => o,
+                        Err(_) => None,
+                    };
                     match out {
                         None => {
                             sim::violation(
                                 "C19/route-write-does-not-terminate",
-                                format!("route_write({shard}) did not return within 1000 polls after event {step} (strategy {:?}); nodes: {:?}", strategy, summarize(&nodes).await),
+                                format!("route_write({shard}) did not return within 1000 polls / 60 virtual seconds after event {step} (strategy {:?}); nodes: {:?}", strategy, summarize(&nodes).await),
                             );
                             sim::set_completed();
                             return;
